@@ -10,6 +10,11 @@ let handle (f : string array) : string =
     let na = int_of_string f.(i+1) in
     let argv = List.init na (fun j -> ub f.(i + 2 + j)) in
     hb (format_args envs cmd argv)
+  | "j" ->
+    let tmpl = ub f.(1) in
+    let np = int_of_string f.(2) in
+    let pairs = List.init np (fun j -> (ub f.(3 + 2*j), ub f.(4 + 2*j))) in
+    hb (replace_all pairs tmpl)
   | "d" ->
     (match sh_dquote (ub f.(1)) with
      | Lit v -> "L " ^ hb v
